@@ -53,6 +53,10 @@ var c18Tmpls = []c18Tmpl{
 	{"(defmacro car-of (&rest xs) (quasiquote (car (unquote-splicing xs)))) (list (car-of 5))", "call:car"},
 	{"(defmacro m (&rest xs) (quasiquote (list (unquote-splicing xs) BAD (unquote-splicing xs)))) (m 1 2)", "sym:BAD"},
 	{"(defmacro m (&rest xs) (quasiquote (progn (unquote-splicing xs) (nth 5 'x)))) (m 1 2)", "call:nth"},
+	// a position-less form the macro BUILT, placed with unquote inside a positioned template: it still
+	// takes the macro call site (the template around it keeps its own position)
+	{"(defmacro mg () (let ((g (gensym))) (quasiquote (list (unquote g) 1)))) (progn (mg))", "call:mg"},
+	{"(defmacro mg2 () (let ((g (gensym))) (quasiquote (let ((a 1)) (list a (list (unquote g))))))) (list 1 (mg2))", "call:mg2"},
 	{"(defun thrower () (error 'a-err 3)) (handler-bind ((a-err (lambda (c &rest x) (ignore-errors (car 5)) (rethrow)))) (thrower))", "call:error"},
 }
 
